@@ -103,70 +103,13 @@ theorem C16_records (cx : DCtx) (c : TokenCfg) (s : DState) (hg : s.onGrid = tru
   simp only [update, hg, if_true]
   exact exercise_actions cx c s hn
 
-/-- the payoff of the property text, with its literals, for the ETH configuration: in the money →
-    `round(contracts × |S − K| / S)` minus `round(min(0.015 % × contracts, 12.5 % × contracts × round(mark)))`
-    when the former exceeds the latter; otherwise nothing -/
-def Deribit.specPayoff (kind : Kind) (amount strike S mark : Rat) : Rat :=
-  let itm : Bool := match kind with
-    | .call => decide (strike < S)
-    | .put => decide (S < strike)
-  if itm then
-    let gross := roundDec (-6) (amount * ((if S < strike then strike - S else S - strike) / S))
-    let fee := roundDec (-6) (min (15 / 100000 * amount) (125 / 1000 * (amount * roundDec (-6) mark)))
-    if gross ≤ fee then 0 else gross - fee
-  else 0
+-- the payoff formula of the property text (`C16_payoff_formula`, any configuration, ETH and BTC literals) is in Proofs/C16/Guard.lean: it
+-- divides by the underlying price and is stated under the guard the code's division has.
 
-/-- **intrinsic payoff net of delivery fee** (exact arithmetic, ETH): what a due position is credited is the
-    property's formula evaluated at the quote it is settled against -/
-theorem C16_payoff_formula (s : DState) (p : Position) :
-    netPayoff ethCfg s p =
-      Deribit.specPayoff p.kind p.amount p.strike (settleQuote s p.name).under (settleQuote s p.name).mark := by
-  have hc := C16_constants
-  unfold netPayoff paidOf Deribit.specPayoff itm
-  cases hk : p.kind with
-  | call =>
-    simp only []
-    by_cases hlt : p.strike < (settleQuote s p.name).under
-    · have hnl : ¬ (settleQuote s p.name).under < p.strike := not_lt.mpr hlt.le
-      simp only [hlt, if_true, hnl, if_false, deliverOption, payoffRatio, deliverFee, exact_num, NumCtx.exact_mul,
-        NumCtx.exact_sub, NumCtx.exact_div, exact_fsub, exact_toF, exact_fdiv, Bool.if_true_left, if_true, hc.1, hc.2.2.1, hc.2.2.2.1,
-        ite_self]
-      split
-      · rename_i x gf heq
-        split at heq
-        · simp at heq
-        · rename_i hgf
-          simp only [Option.some.injEq] at heq
-          rw [← heq]; simp [hgf]
-      · rename_i x heq
-        split at heq
-        · rename_i hgf; simp [hgf]
-        · simp at heq
-    · simp [hlt]
-  | put =>
-    simp only []
-    by_cases hlt : (settleQuote s p.name).under < p.strike
-    · have hgt : p.strike > (settleQuote s p.name).under := hlt
-      simp only [hgt, hlt, if_true, deliverOption, payoffRatio, deliverFee, exact_num, NumCtx.exact_mul,
-        NumCtx.exact_sub, NumCtx.exact_div, exact_fsub, exact_toF, exact_fdiv, hc.1, hc.2.2.1, hc.2.2.2.1, ite_self,
-        Bool.false_eq_true, if_false]
-      split
-      · rename_i x gf heq
-        split at heq
-        · simp at heq
-        · rename_i hgf
-          simp only [Option.some.injEq] at heq
-          rw [← heq]; simp [hgf]
-      · rename_i x heq
-        split at heq
-        · rename_i hgf; simp [hgf]
-        · simp at heq
-    · have hgt : ¬ p.strike > (settleQuote s p.name).under := hlt
-      simp [hgt, hlt]
-
-/-- **cash moves by exactly the payoffs** (exact arithmetic): after `update()` on an open bar the cash is
-    the old cash plus the net payoff of every due position; off the grid it does not move -/
-theorem C16_cash_moves_by_payoffs (c : TokenCfg) (s : DState) :
+/-- cash after the NON-RAISING path of `check_option_exercise` (`update`, whose payoff division is `Rat`'s total one): the old cash
+    plus the net payoff of every due position; off the grid it does not move.  The statement about the code's `update()`, which
+    raises when a due in-the-money position has underlying price 0, is `C16_cash_moves_by_payoffs` in Proofs/C16/Guard.lean. -/
+theorem Deribit.update_cash_eq (c : TokenCfg) (s : DState) :
     (update DCtx.exact c s).cash =
       if s.onGrid then s.cash + ((s.positions.filter (fun kp => due s kp.2)).map (fun kp => netPayoff c s kp.2)).sum
       else s.cash := by
@@ -198,9 +141,7 @@ theorem C16_trades_only_on_open_bars (cx : DCtx) (c : TokenCfg) (s : DState) (r 
     step cx c s (.sell r) = (.error (.demeter "market-closed"), s) := by
   constructor <;> simp [step, buy, sell, h]
 
-/-- … and the flag is what the bar's data says: `set_market_status` copies it from "timestamp in data" -/
-theorem C16_flag_follows_data (s : DState) (b : Bar) : (setStatus s b).flagOpen = b.flagOpen ∧ (setStatus s b).now = b.now := ⟨rfl, rfl⟩
-
+-- where the flag comes from (`timestamp in _data.index`) is modelled in Demeter/Deribit/Frame.lean: `C16_flag_follows_data`, Proofs/C16/Frame.lean
 
 /-! ### non-vacuity: a call and a put, both due at minute 120, one in the money -/
 
